@@ -447,6 +447,44 @@ def make (max off : Nat) (fill : List Byte) : Ring :=
   let s2 := Mem.write s1 0 (fill.drop up)
   { store := s2, len := fill.length, off := off }
 
+/-- the two free parts `mpt_queue_load` hands to `readv`: (length at the free start, length at the storage start) -/
+def loadParts (low high len : Nat) : Nat × Nat :=
+  if len = 0 then (low, high)
+  else if len < low then (len, 0)
+  else if len - low < high then (low, len - low)
+  else (low, high)
+
+/-- `mpt_queue_load(queue, fd, len)` where the descriptor has exactly `bytes` ready (and then end of file):
+    `readv` fills the first free part, then the part at the storage start; result = bytes taken.
+    `.err .BadValue` stands for the literal `-2` of a full queue. -/
+def load (r : Ring) (len : Nat) (bytes : List Byte) : Res (Ring × Nat) :=
+  match r.empty with
+  | none => .err .BadValue
+  | some (start, low, high) =>
+    let (lo, hi) := loadParts low high len
+    let k := min bytes.length (lo + hi)
+    let a := bytes.take (min k lo)
+    let b := (bytes.drop (min k lo)).take (k - min k lo)
+    match Mem.wr r.store start a with
+    | .ok s1 =>
+      match Mem.wr s1 0 b with
+      | .ok s2 => .ok ({ r with store := s2, len := r.len + k }, k)
+      | _ => .oob
+    | _ => .oob
+
+/-- `mpt_queue_save(queue, fd)` with a descriptor that accepts everything: all content is written
+    (first part, then the wrapped part) and removed from the queue -/
+def save (r : Ring) : Res (Ring × List Byte) :=
+  if r.len = 0 then .ok (r, [])
+  else
+    let low := r.low
+    match Mem.rd r.store r.off low, Mem.rd r.store 0 (r.len - low) with
+    | .ok a, .ok b =>
+      match r.crop 0 r.len with
+      | .ok (r1, _) => .ok (r1, a ++ b)
+      | _ => .ok (r, a ++ b)
+    | _, _ => .oob
+
 /-! ### C++ `io::queue` (mpt++/io_queue.cpp): thin wrappers that grow the storage on demand -/
 
 /-- `io::queue::push(data, len)`: `mpt_queue_prepare` (result ignored) then `mpt_qpush >= 0` -/
